@@ -18,7 +18,7 @@ Theorem C14_v2_refines_spec : forall r : kv, conv_v2 r = table_convert spec_v2_t
 Proof. exact conv_v2_refines_spec. Qed.
 
 (** and so is the whole load pipeline (typed reader, conversion, validation, lib data) *)
-Theorem C14_load_refines_spec : forall u : ufo, load_model u = load_spec u.
+Theorem C14_load_refines_spec : forall (q : request) (u : ufo), load_model q u = load_spec q u.
 Proof. exact load_model_is_spec. Qed.
 
 (** every enumeration code outside the tables is an error -- for all integers / all strings,
@@ -161,10 +161,10 @@ Proof. exact decode_fields_typed. Qed.
         lengths) and all other attributes (no rule reads them);
       - has [None] for gasp records, guidelines and the WOFF attributes, which is exact because
         these attributes are absent from every loaded legacy info ([C14_projection_exact]). *)
-Theorem C14_result_v3_valid : forall u l,
-  load_model u = Ok l -> l_version l = 3 /\ FontInfo.fi_spec (project (l_info l)).
+Theorem C14_result_v3_valid : forall q u l,
+  load_model q u = Ok l -> l_version l = 3 /\ FontInfo.fi_spec (project (l_info l)).
 Proof.
-  intros u l H. destruct (load_result_valid u l H) as [V S]. split; [exact V|].
+  intros q u l H. destruct (load_result_valid q u l H) as [V S]. split; [exact V|].
   apply validate_ok_spec. exact S.
 Qed.
 
@@ -172,18 +172,18 @@ Qed.
     is touched, then serialise) succeeds on the loaded info and writes exactly it.  The rest of
     a save (layers, lib, stores: C01/C08/C09) is exercised by this property's oracle on the
     implementation (every loaded font is saved and re-read), not proved here. *)
-Theorem C14_result_saveable : forall u l,
-  load_model u = Ok l -> FontInfo.fi_save (project (l_info l)) = Ok (project (l_info l)).
+Theorem C14_result_saveable : forall q u l,
+  load_model q u = Ok l -> FontInfo.fi_save (project (l_info l)) = Ok (project (l_info l)).
 Proof.
-  intros u l H. destruct (C14_result_v3_valid u l H) as [_ S].
+  intros q u l H. destruct (C14_result_v3_valid q u l H) as [_ S].
   apply FontInfoP.save_iff_spec in S. destruct S as [j Hj].
   destruct (FontInfoP.save_only_valid _ _ Hj) as [E _]. subst j. exact Hj.
 Qed.
 
 (** the loaded info has the format-3 types, the structured format-3-only attributes are absent,
     and on such an info the projection's unsigned fields lose nothing *)
-Theorem C14_projection_exact : forall u l,
-  load_model u = Ok l ->
+Theorem C14_projection_exact : forall q u l,
+  load_model q u = Ok l ->
   typed ufo3_schema (l_info l) /\
   (forall k, In k ["guidelines"; "openTypeGaspRangeRecords"; "openTypeNameRecords";
                    "woffMetadataCopyright"; "woffMetadataCredits"; "woffMetadataDescription";
@@ -198,18 +198,18 @@ Theorem C14_projection_exact : forall u l,
                  FontInfo.i_class (project (l_info l)) = Some (Z.to_N a, Z.to_N b) /\
                  Z.of_N (Z.to_N a) = a /\ Z.of_N (Z.to_N b) = b).
 Proof.
-  intros u l H. pose proof (load_typed u l H) as T. split; [exact T|]. split.
-  - intros k Hk. apply (load_complex_absent u l k H). exact Hk.
+  intros q u l H. pose proof (load_typed q u l H) as T. split; [exact T|]. split.
+  - intros k Hk. apply (load_complex_absent q u l k H). exact Hk.
   - destruct (project_exact (l_info l) T) as (P1 & P2 & _). split; [exact P1|exact P2].
 Qed.
 
 (** no panic site is reachable while a legacy font info is loaded (the [unwrap] of the
     unitsPerEm conversion, the slices of the date rule) *)
-Theorem C14_load_total : forall u s, load_model u <> Panic s.
+Theorem C14_load_total : forall q u s, load_model q u <> Panic s.
 Proof. exact load_no_panic. Qed.
 
 Example C14_valid_witness :
-  load_model {| u_version := 2;
+  load_model req_all {| u_version := 2;
                 u_fontinfo := Some [("openTypeHeadCreated", PStr "2020/02/30 23:59:59");
                                     ("postscriptBlueValues", PArr [PInt 1; PReal (Fin 5 (-1))]);
                                     ("openTypeOS2Selection", PArr [PInt 7; PInt 1])];
@@ -219,10 +219,10 @@ Example C14_valid_witness :
                      ("openTypeOS2Selection", VInts [7; 1]);
                      ("postscriptBlueValues", VNums [Fin 1 0; Fin 5 (-1)])];
           l_features := ""; l_lib := [] |} /\
-  load_model {| u_version := 2;
+  load_model req_all {| u_version := 2;
                 u_fontinfo := Some [("openTypeHeadCreated", PStr "2020/00/10 00:00:00")];
                 u_lib := None; u_features := None |} = Err (EFontInfoUpconv KBadDate) /\
-  load_model {| u_version := 2;
+  load_model req_all {| u_version := 2;
                 u_fontinfo := Some [("postscriptBlueValues", PArr [PInt 1])];
                 u_lib := None; u_features := None |}
   = Err (EFontInfoUpconv (KListPairs "postscriptBlueValues")).
@@ -247,6 +247,44 @@ Proof.
   split; [exact apply_hints_frame|]. intros. apply remove_keys_In.
 Qed.
 
+(** the conversion does not depend on what the caller requested: success, error, and the whole
+    resulting font info -- converted attributes and the hint data read from lib.plist -- are
+    the same for every [DataRequest]; in particular a load that does not request the lib still
+    moves the PostScript hint data into the font info *)
+Theorem C14_info_independent_of_request : forall q q' u,
+  res_info (load_model q u) = res_info (load_model q' u).
+Proof. exact info_independent_of_request. Qed.
+
+(** and so does the feature text kept in the format-1 lib (also when features.fea itself was
+    not requested) *)
+Theorem C14_features_independent_of_request : forall q u l ld,
+  load_model q u = Ok l -> u_version u = 1 -> u_lib u = Some ld ->
+  forall d, decode_libdata ld = Some d -> feature_text d <> "" -> l_features l = feature_text d.
+Proof. exact robofab_features_independent_of_request. Qed.
+
+(** the font's lib: empty when not requested, otherwise entries of the file, never
+    public.objectLibs *)
+Theorem C14_lib_of_request : forall q u l,
+  load_model q u = Ok l ->
+  (q_lib q = false -> l_lib l = []) /\
+  (forall k v, In (k, v) (l_lib l) -> k <> PUBLIC_OBJECT_LIBS_KEY /\
+     exists d, u_lib u = Some d /\ In (k, v) d).
+Proof. exact lib_of_request. Qed.
+
+Example C14_request_witness :
+  let u := {| u_version := 1; u_fontinfo := None;
+              u_lib := Some [("org.robofab.postScriptHintData", PDict [("blueFuzz", PInt 2)]);
+                             ("org.robofab.opentype.classes", PStr "@a=[a];");
+                             ("public.objectLibs", PDict []); ("keep", PInt 1)];
+              u_features := Some "on disk" |} in
+  load_model {| q_lib := false; q_features := false |} u
+  = Ok {| l_version := 3; l_info := [("postscriptBlueFuzz", VNum (Fin 1 1))];
+          l_features := "@a=[a];"; l_lib := [] |} /\
+  load_model req_all u
+  = Ok {| l_version := 3; l_info := [("postscriptBlueFuzz", VNum (Fin 1 1))];
+          l_features := "@a=[a];"; l_lib := [("keep", PInt 1)] |}.
+Proof. split; vm_compute; reflexivity. Qed.
+
 Example C14_robofab_witness :
   let lib := [("org.robofab.postScriptHintData",
                PDict [("blueValues", PArr [PArr [PInt (-10); PInt 0]; PArr [PInt 500; PReal (Fin 1021 (-1))]]);
@@ -254,7 +292,7 @@ Example C14_robofab_witness :
               ("org.robofab.opentype.classes", PStr "@a=[a];");
               ("org.robofab.opentype.features", PDict [("liga", PStr "L"); ("kern", PStr "K")]);
               ("com.example", PInt 1)] in
-  load_model {| u_version := 1; u_fontinfo := Some [("fontStyle", PInt 33)];
+  load_model req_all {| u_version := 1; u_fontinfo := Some [("fontStyle", PInt 33)];
                 u_lib := Some lib; u_features := None |}
   = Ok {| l_version := 3;
           l_info := [("postscriptStemSnapH", VNums [Fin 5 4]); ("postscriptForceBold", VBool true);
